@@ -16,7 +16,7 @@ end
 def render : Result → String
   | .fault => "fault"
   | r => if r.isNull then "null" else match r with
-    | .node n => (if n.parent == none then "R+" else "R!") ++ dumpNode n
+    | .node n => (if n.parent == none then "R+" else "R!") ++ dumpNode n ++ " t=" ++ hex n.textOf
     | _ => "null"
 
 /-- parse the preorder token stream; attributes go through `mapSet` like `setAttr` -/
@@ -59,14 +59,15 @@ partial def measure (work : List (Node × Nat)) (depth nodes bad : Nat) : Nat ×
 def deepDoc (n : Nat) (kind : String) : Bytes :=
   let opens := (List.replicate n [60, 97, 62]).flatten
   let closes := (List.replicate n [60, 47, 97, 62]).flatten
-  (if kind == "1" then [60, 114, 62] else []) ++ opens ++ (if kind == "2" then [] else closes)
+  (if kind == "1" then [60, 114, 62] else []) ++ opens ++ (if kind == "3" then [120] else [])
+    ++ (if kind == "2" then [] else closes)
     ++ (if kind == "1" then [60, 47, 120, 62] else [])
 
 def deepShow (r : Result) : String :=
   if r.isNull then "deep null" else match r with
   | .node n =>
     let (d, k, b) := measure [(n, 1)] 0 0 (if n.parent == none then 0 else 1)
-    s!"deep depth={d} nodes={k} badparents={b}"
+    s!"deep depth={d} nodes={k} badparents={b} text={hex n.textOf}"
   | .fault => "fault"
   | .null => "deep null"
 
@@ -78,7 +79,7 @@ def step (_ : Unit) (ts : List String) : Unit × String :=
       | some d, some k =>
         let r := decode d
         if r.isNull then "null" else match pickSurvivor r k with
-        | some c => (if c.parent == none then "R+" else "R!") ++ dumpNode c
+        | some c => (if c.parent == none then "R+" else "R!") ++ dumpNode c ++ " t=" ++ hex c.textOf
         | none => "null"
       | _, _ => "bad-op"
     | ["dec", h] => match unhex h with
